@@ -25,14 +25,14 @@ MANIFEST = dict(
          "under an explicit fread/fseek contract incl. arbitrary internal chunking): C07_refines (each back-end refines the "
          "abstract stream Spec on the agreeing fragment), C07_programs (EVERY program over the hio_* operations that stays in "
          "the fragment computes the same result on FILE, memory and every legal callback set), C07_divergence (the complement "
-         "is characterised exactly: every excluded state/operation has a proved distinguishing continuation; witnesses D1-D6), "
+         "is characterised exactly: every excluded state/operation has a proved distinguishing continuation; witnesses D2-D6; D1 = read8s at end of data was repaired in libxmp and is now the agreement lemma C07_read8s_agree), "
          "C07_same_core (the four load/test entry points hand the same program to the back-end; only the path fields differ). "
          "Tied to src/hio.c, dataio.c, memio.c, mdataio.h, callbackio.h on every run by a differential correspondence on the "
          "real back-ends (real temp file, memory, callbacks) and by a translator-generated list of code that looks inside a "
          "handle (hioUsers_known). A direct oracle compares return code, module digest, MD5, sequences and PCM across the four "
          "load and four test entry points on intact and damaged corpus files.",
     note="Partial: that no format loader's RESULT depends on the divergent operations (hio_eof before a short read, seeks beyond "
-         "the end, read8s at end of data, partial items) is searched by the entry-point oracle, not proved; the ~110 loaders are "
+         "the end, partial items) is searched by the entry-point oracle, not proved; the ~110 loaders are "
          "not modelled. Trusted: Lean kernel, the hand-written models, glibc stdio behaviour as observed by the harness, the "
          "harness and differ. Callback legality (fread/fseek contract) is an explicit hypothesis.",
     technique="Lean 4 refinement proof (simulation relations, induction over the free monad of stream operations) + differential "
@@ -40,8 +40,8 @@ MANIFEST = dict(
     design_ref="DESIGN.md section 4 C07",
 )
 REQUIRED = ["Xmp.Stream." + n for n in (
-    "C07_refines", "C07_memCb_legal", "C07_programs", "C07_programs_memCb", "C07_divergence", "C07_divergence_read8s",
-    "C07_divergence_tail", "C07_D1", "C07_D2", "C07_D3", "C07_D4", "C07_D5", "C07_D6", "C07_F14_pattern",
+    "C07_refines", "C07_memCb_legal", "C07_programs", "C07_programs_memCb", "C07_divergence", "C07_read8s_agree",
+    "C07_divergence_tail", "C07_D1_repaired", "C07_read8s_after_seek_past", "C07_D2", "C07_D3", "C07_D4", "C07_D5", "C07_D6", "C07_F14_pattern",
     "C07_same_core", "C07_entrypoints", "C07_entrypoints_test")]
 
 SENT = "a5"
@@ -101,8 +101,6 @@ def spec_matches(spec, real, op):
     relax = f[-1]
     sres = " ".join(f[:-1])
     rres = real.partition(" | ")[0]
-    if relax == "s8eof":
-        return rres.startswith("v ")
     if relax == "tail":
         sf, rf = sres.split(" "), rres.split(" ")
         return sf[0] == rf[0] == "d" and sf[1] == rf[1] and sf[2] == rf[2]
@@ -176,7 +174,7 @@ def stream_correspondence(ck, stats):
                                      {"how": "harness c07_streamops --replay <script file> <tmpfile>", "script": case_script(c)},
                                      "real back-ends %s differ from the abstract stream inside the agreeing fragment at op #%d `%s`: F=%s M=%s C=%s spec=%s"
                                      % (bad, k, o["op"], o["F"], o["M"], o["C"], m["S"]))
-                    if m["S"].endswith("s8eof"):
+                    if o["op"] == "op w 1" and o["M"].startswith("v -1 | 1"):
                         stats["s8_at_eof"] += 1
                     if len(st) > 1:
                         pass
@@ -425,6 +423,33 @@ def synth_files(td):
     return out
 
 
+# witnesses of repaired findings, kept as fixed cases of the entry-point oracle:
+# (corpus file relative to test-dev/data, truncation, [(offset, xor mask)])
+REGRESSIONS = [
+    ("stereo.med", -1, [(636, 0x10)]),          # entry:mmd3:load-tables: read8s at end of data (track pans) 0 vs -1
+    ("alf.abk", -4, []),                        # entry:abk:load-*: hio_eof after a complete read (trunc = size-4)
+    ("alf.abk", -8, []),
+    ("IMS.beast-busters1.st", 1084, []),        # entry:ims:uninit-load
+    ("load_mfp_truncated.mfp", -1, []),         # entry:mfp:file-handle
+]
+
+
+def regression_cases():
+    out = []
+    by_name = {}
+    for f in vlib.corpus_files():
+        by_name.setdefault(os.path.basename(f), f)
+    for k, (name, trunc, xors) in enumerate(REGRESSIONS):
+        src = by_name.get(name)
+        if not src:
+            continue
+        b = open(src, "rb").read()
+        t = trunc if trunc >= -1 else len(b) + trunc
+        edits = [(off, bytes([b[off] ^ m])) for off, m in xors if off < len(b)]
+        out.append(("reg%d" % k, src, t, edits, "regression:%s" % name))
+    return out
+
+
 def parse_entry_output(text):
     cases, cur = {}, None
     order = []
@@ -641,6 +666,9 @@ def entrypoint_oracle(ck, gen, stats):
             mid = "%s.m%d" % (cid, k)
             mut_cases.append((mid, src, trunc, edits))
             src_of[mid] = (mid, src, trunc, edits, label)
+    for c in regression_cases():
+        mut_cases.append(c[:4])
+        src_of[c[0]] = c
     res2, aborts2 = run_entry_cases(ck, exe, td, mut_cases, nframes, "mut")
     res.update(res2)
     aborts += aborts2
@@ -679,7 +707,8 @@ def entrypoint_oracle(ck, gen, stats):
 # the witnesses of C07_D1..D6 / C07_F14_pattern (XmpProps/C07.lean), replayed on the REAL back-ends:
 # (bytes hex, policy "sp pt chunk", ops, expected value column per back-end)
 WITNESSES = [
-    ("D1", "01", "0 1 0", ["w 0", "w 1"], {"F": ["v 1", "v 0"], "M": ["v 1", "v -1"], "C": ["v 1", "v -1"]}),
+    ("D1_repaired", "01", "0 1 0", ["w 0", "w 1"], {"F": ["v 1", "v -1"], "M": ["v 1", "v -1"], "C": ["v 1", "v -1"]}),
+    ("read8s_after_seek_past", "0102", "0 1 0", ["seek 9 0", "w 1"], {"F": ["v 0", "v -1"], "M": ["v 0", "v -1"], "C": ["v 0", "v -1"]}),
     ("D2", "0102", "0 1 0", ["seek 5 0", "tell"], {"F": ["v 0", "v 5"], "M": ["v 0", "v 2"], "C": ["v 0", "v 5"]}),
     ("D2-clamp", "0102", "1 1 0", ["seek 5 0", "tell"], {"C": ["v 0", "v 2"]}),
     ("D2-fail", "0102", "2 1 0", ["seek 5 0", "tell"], {"C": ["v -1", "v 0"]}),
